@@ -40,6 +40,15 @@ var ps struct {
 	rec        []byte
 	userSawTLS []bool
 	reqTLSnil  bool
+	interleave func() // runs another connection in the middle of serving this one
+	seen       []psSeen
+}
+
+type psSeen struct {
+	conn  string
+	rec   string
+	proto string
+	md    *metadata.Metadata
 }
 
 func ev(s string) { ps.events = append(ps.events, s) }
@@ -84,7 +93,10 @@ type psAddr struct{}
 func (psAddr) Network() string { return "tcp" }
 func (psAddr) String() string  { return "192.0.2.1:4711" }
 
-type psConn struct{ closed int }
+type psConn struct {
+	closed int
+	name   string
+}
 
 func (c *psConn) Read(b []byte) (int, error)         { return 0, errors.New("psConn: read") }
 func (c *psConn) Write(b []byte) (int, error)        { ev("conn.Write"); return len(b), nil }
@@ -189,7 +201,11 @@ func stubH2ServeConn(s *http2.Server, c net.Conn, opts *http2.ServeConnOpts) {
 		h = opts.BaseConfig.Handler
 	}
 	if h != nil {
-		r := (&http.Request{Method: "GET", Header: http.Header{}, RemoteAddr: "192.0.2.1:4711"}).WithContext(opts.Context)
+		if f := ps.interleave; f != nil {
+			ps.interleave = nil
+			f()
+		}
+		r := (&http.Request{Method: "GET", Header: http.Header{}, RemoteAddr: ps.conn.name}).WithContext(opts.Context)
 		if !ps.reqTLSnil {
 			r.TLS = &tls.ConnectionState{NegotiatedProtocol: "h2"}
 		}
@@ -223,7 +239,11 @@ func stubSendToChannel(ln *hack.ChannelListener, c net.Conn) {
 		vFail("h1-context-carries-metadata")
 	}
 	if hs.Handler != nil {
-		r := (&http.Request{Method: "GET", Header: http.Header{}, RemoteAddr: "192.0.2.1:4711"}).WithContext(ctx)
+		if f := ps.interleave; f != nil {
+			ps.interleave = nil
+			f()
+		}
+		r := (&http.Request{Method: "GET", Header: http.Header{}, RemoteAddr: ps.conn.name}).WithContext(ctx)
 		if tc, ok := c.(*tls.Conn); ok {
 			cs := tc.ConnectionState()
 			r.TLS = &cs
@@ -261,6 +281,11 @@ type psUserHandler struct{}
 func (psUserHandler) ServeHTTP(w http.ResponseWriter, r *http.Request) {
 	ev("user.handler")
 	ps.userSawTLS = append(ps.userSawTLS, r.TLS != nil)
+	if md, ok := metadata.FromContext(r.Context()); ok {
+		ps.seen = append(ps.seen, psSeen{conn: r.RemoteAddr, rec: string(md.ClientHelloRecord), proto: md.ConnectionState.NegotiatedProtocol, md: md})
+	} else {
+		ps.seen = append(ps.seen, psSeen{conn: r.RemoteAddr})
+	}
 }
 
 // psSetup builds a Server the way NewServer + setupServe do and resets the recorder.
@@ -273,7 +298,9 @@ func psSetup(allowPanic bool, metrics bool) *Server {
 	ps.tlsConn = nil
 	ps.hsCtx = nil
 	ps.reqTLSnil = false
-	ps.conn = &psConn{}
+	ps.interleave = nil
+	ps.seen = nil
+	ps.conn = &psConn{name: "192.0.2.1:4711"}
 	ps.rec = []byte{0x16, 0x03, 0x01, 0x00, 0x01, vU8("rec5")}
 	server := NewServer(context.Background(), psUserHandler{}, &tls.Config{})
 	if metrics {
